@@ -397,6 +397,44 @@ pub fn exec_plan_subprocess(plan: &Plan) -> Option<Outcome> {
     serde_json::from_str(&line[2..]).ok()
 }
 
+/// The hashes of the dumps written by the commits of `plan` under the choice-free schedule
+/// (engine A's control execution), computed by a *fresh process*: what an earlier execution left in
+/// this process's memory cannot take part.
+pub fn commit_hashes_subprocess(plan: &Plan, tag: &str) -> Option<Vec<u64>> {
+    let exe = std::path::PathBuf::from("/proc/self/exe");
+    let dir = workdir_base();
+    std::fs::create_dir_all(&dir).ok()?;
+    let path = dir.join(format!("ctl-{}-{tag}.json", std::process::id()));
+    std::fs::write(&path, serde_json::to_vec(plan).unwrap()).ok()?;
+    let out = Command::new(exe).args(["commit-hashes", path.to_str().unwrap()]).stderr(Stdio::null()).output().ok()?;
+    let _ = std::fs::remove_file(&path);
+    if !out.status.success() {
+        return None;
+    }
+    let text = String::from_utf8_lossy(&out.stdout);
+    let line = text.lines().rev().find(|l| l.starts_with("H "))?;
+    serde_json::from_str::<Option<Vec<u64>>>(&line[2..]).ok()?
+}
+
+pub fn commit_hashes_main(path: &str) -> i32 {
+    crate::init_process();
+    let plan: Plan = match std::fs::read(path).ok().and_then(|b| serde_json::from_slice(&b).ok()) {
+        Some(p) => p,
+        None => {
+            eprintln!("HARNESS-ERROR unparsable plan {path}");
+            return 2;
+        }
+    };
+    let base = workdir_base();
+    let current = std::sync::Arc::new(std::sync::atomic::AtomicU64::new(0));
+    let started = std::sync::Arc::new(std::sync::Mutex::new(Instant::now()));
+    spawn_watchdog(current, started);
+    let h = crate::engine_a::committed_dumps_without_choices(&plan, &base.join("run")).map(|v| v.iter().map(crate::decode::dump_hash).collect::<Vec<u64>>());
+    let _ = std::fs::remove_dir_all(&base);
+    println!("H {}", serde_json::to_string(&h).unwrap());
+    0
+}
+
 pub fn exec_plan_main(path: &str) -> i32 {
     crate::init_process();
     let plan: Plan = match std::fs::read(path).ok().and_then(|b| serde_json::from_slice(&b).ok()) {
@@ -761,15 +799,36 @@ pub fn finish_check(
             continue;
         }
         // minimise, then decide again on the minimised plan (a known finding may hide behind noise)
-        let (min_plan, execs) = minimise(&plan, prop, &v.kind);
-        let confirm = exec_plan_subprocess(&min_plan);
-        let final_v = match &confirm {
-            Some(o) => o.violation.clone().unwrap_or_else(|| v.clone()),
-            None => v.clone(),
+        let (mut min_plan, execs) = minimise(&plan, prop, &v.kind);
+        let mut confirm = exec_plan_subprocess(&min_plan);
+        let mut reproduced = same_class(&confirm, prop, &v.kind);
+        if !reproduced {
+            // the violation was observed by a worker of the batch; neither plan may reproduce it in a fresh
+            // process when the code under test has behaviour the simulator does not own (threads it does
+            // not announce, state kept by the process across runs): try both plans a few times
+            'retry: for _ in 0..3 {
+                for cand in [&plan, &min_plan.clone()] {
+                    let o = exec_plan_subprocess(cand);
+                    if same_class(&o, prop, &v.kind) {
+                        min_plan = cand.clone();
+                        confirm = o;
+                        reproduced = true;
+                        break 'retry;
+                    }
+                }
+            }
+        }
+        let mut final_v = match (&confirm, reproduced) {
+            (Some(o), true) => o.violation.clone().unwrap_or_else(|| v.clone()),
+            _ => v.clone(),
         };
-        if !same_class(&confirm, prop, &v.kind) {
-            eprintln!("HARNESS-ERROR run {i} (seed {seed}) violated {prop}:{} but its minimised plan does not reproduce in a fresh process", v.kind);
-            return 2;
+        if !reproduced {
+            // still a violation of the property, seen on the real code: report it with the full plan, and say so
+            min_plan = plan.clone();
+            final_v.detail = format!(
+                "{} [observed in the batch but NOT reproduced by 7 replays in fresh processes: the code under test does something the simulator does not control (threads it does not announce through the hooks, or state the process keeps between runs); the replay file holds the unminimised plan]",
+                final_v.detail
+            );
         }
         if let Some(k) = known_match(&known, prop, &final_v, &min_plan) {
             known_lines.insert(format!("KNOWN-FINDING: property={prop} {}", k.what));
